@@ -165,4 +165,11 @@ Definition mk_prog (ds : decls) (bs : list nbeh) (input : kwargs) (mgrs : nat) (
      p_store := store; p_store_gated := store_gated;
      p_store_fault := fun n k => existsb (fun f => key_eqb (fst f) n && Nat.eqb (snd f) k) store_faults;
      p_order := order_oracle g orders; p_succ_order := succ_oracle g succ_orders;
-     p_thread_ready := thr; p_process_ready := prc |}.
+     p_thread_ready := thr; p_process_ready := prc; p_pick := fun _ => 0 |}.
+
+(* the same program under another choice of the reported error among several failed tasks (index into task_errors) *)
+Definition with_pick (P : prog) (j : nat) : prog :=
+  {| p_decls := p_decls P; p_inp := p_inp P; p_out := p_out P; p_body := p_body P; p_input := p_input P; p_mgrs := p_mgrs P;
+     p_mgr_gated := p_mgr_gated P; p_mgr_fault := p_mgr_fault P; p_store := p_store P; p_store_gated := p_store_gated P;
+     p_store_fault := p_store_fault P; p_order := p_order P; p_succ_order := p_succ_order P;
+     p_thread_ready := p_thread_ready P; p_process_ready := p_process_ready P; p_pick := fun _ => j |}.
